@@ -168,44 +168,59 @@ Definition morsel_serialize (m : morsel) : res str :=
   end.
 
 (* make_cookie(name, value, max_age, path, domain, secure, httponly, comment, samesite) *)
+(* the if/elif chain at the top: value None deletes (max_age = 0, fixed expires in the past); a timedelta is
+   days*86400 + seconds; an int is taken as it is; expires = max_age (rendered as a date by the Morsel) *)
+Definition mc_secs (r : request) : option Z :=
+  match r_value r with
+  | CNone => Some 0%Z
+  | _ => match r_max_age r with
+         | MaDelta d s => Some (d * 86400 + s)%Z
+         | MaInt z => Some z
+         | MaNone => None
+         end
+  end.
+Definition mc_expires (r : request) : option str :=
+  match r_value r with
+  | CNone => Some delete_expires
+  | _ => match r_max_age r with
+         | MaNone => None
+         | _ => Some (r_date r)
+         end
+  end.
+(* Morsel.__init__: bytes_(value, 'ascii') *)
+Definition mc_value (r : request) : res str :=
+  match r_value r with
+  | CNone => Ok []
+  | CBytes b => Ok b
+  | CText t => if is_ascii t then Ok t else Raise UnicodeEncodeError
+  end.
+(* morsel.samesite = samesite -> serialize_samesite *)
+Definition mc_samesite (validate : bool) (r : request) : res (option str) :=
+  match r_samesite r with
+  | Some s => if validate && negb (samesite_ok s) then Raise ValueError else Ok (Some s)
+  | None => Ok None
+  end.
+Definition mc_morsel (r : request) (vbytes : str) (ss : option str) : morsel :=
+  {| m_name := r_name r; m_value := vbytes;
+     m_path := r_path r; m_domain := r_domain r; m_comment := r_comment r;
+     m_maxage := option_map z_to_str (mc_secs r);
+     m_expires := mc_expires r; m_secure := r_secure r; m_httponly := r_httponly r;
+     m_samesite := ss |}.
+
 Definition make_cookie (validate : bool) (r : request) : res str :=
-  (* value None: delete; max_age timedelta / int *)
-  let '(value, max_age, expires) :=
-    match r_value r with
-    | CNone => (CBytes [], Some 0%Z, Some delete_expires)
-    | v => match r_max_age r with
-           | MaDelta d s => (v, Some (d * 86400 + s)%Z, Some (r_date r))
-           | MaInt z => (v, Some z, Some (r_date r))
-           | MaNone => (v, None, None)
-           end
-    end in
   (* Morsel(name, value): both through bytes_(x, 'ascii'), then assert _valid_cookie_name(name) *)
   if negb (is_ascii (r_name r)) then Raise UnicodeEncodeError
   else
-  match (match value with
-         | CText t => if is_ascii t then Ok t else Raise UnicodeEncodeError
-         | CBytes b => Ok b
-         | CNone => Ok []
-         end) with
+  match mc_value r with
   | Raise e => Raise e
   | Ok vbytes =>
   match valid_cookie_name_res (r_name r) with
   | Raise e => Raise e
   | Ok false => Raise AssertionError
   | Ok true =>
-      (* morsel.samesite = samesite -> serialize_samesite *)
-      match (match r_samesite r with
-             | Some s => if validate && negb (samesite_ok s) then Raise ValueError else Ok (Some s)
-             | None => Ok None
-             end) with
+      match mc_samesite validate r with
       | Raise e => Raise e
-      | Ok ss =>
-          morsel_serialize {|
-            m_name := r_name r; m_value := vbytes;
-            m_path := r_path r; m_domain := r_domain r; m_comment := r_comment r;
-            m_maxage := option_map z_to_str max_age;
-            m_expires := expires; m_secure := r_secure r; m_httponly := r_httponly r;
-            m_samesite := ss |}
+      | Ok ss => morsel_serialize (mc_morsel r vbytes ss)
       end
   end
   end.
